@@ -131,6 +131,8 @@ static inline bool payload_ok(int, size_t, size_t) { return true; }
 static inline bool payload_ok(const KV& x, size_t i, size_t p) { return x.payload == static_cast<int>(i * 100000 + p); }
 // the explicit lists of the current tuple: after EVERY call the sequences handed to the functions must still equal them
 inline const std::vector<Seq>* g_master = nullptr;
+inline bool g_repeat = true;   // explicit second call of both functions (one / all / sel lines; enumerations re-query the
+                               // same runs at the next rank anyway and always run the aliased / in-place second calls)
 static inline int key_of(int x) { return x; }
 static inline int key_of(const KV& x) { return x.key; }
 static inline void make_elem(int& e, int x, int) { e = x; }
@@ -266,7 +268,7 @@ static Answer run_one(std::vector<std::pair<It, It>> iters, long rank, Comp comp
     try { v = select(rk, soff); } catch (std::exception&) { a.thrown = true; }
     input_intact("selection");
     // every query twice on the same runs
-    {
+    if (g_repeat) {
         std::vector<It> offs2(offs);
         if (!g_sel_only) { partition_into(offs2); input_intact("partition(2nd)"); }
         RankT soff2 = static_cast<RankT>(-1); Elem v2 = Elem(); bool thrown2 = false;
@@ -491,6 +493,7 @@ static void run_rank(std::vector<Seq>& seqs, Tuple& T, diff_t rank, std::string&
     diff_t N = 0;
     for (auto& s : seqs) N += static_cast<diff_t>(s.size());
     int k0 = every_variant ? 0 : static_cast<int>(g_entry % NVARIANTS);
+    g_repeat = every_variant;
     ++g_entry;
     Answer a = run_variant(k0, T, rank, comp);
     show_answer(rank, a, out);
